@@ -218,8 +218,11 @@ void CPCA(tensor *x, int scaling, size_t npc, CPCAMODEL *model)
           continue;
       }
 
-      if(colvar->data[j] > best_colvar){
-        best_colvar = colvar->data[j];
+      /* the iteration runs on the blocks divided by sqrt(number of variables):
+       * rank the candidate start columns on that scale as well
+       */
+      if(colvar->data[j]/(double)Eb->m[k]->col > best_colvar){
+        best_colvar = colvar->data[j]/(double)Eb->m[k]->col;
         best_colvar_id = j;
         best_block_id = k;
       }
